@@ -193,12 +193,17 @@ impl UnionSchema {
 
     /// Find a [`Schema::Record`] with `n` fields.
     ///
+    /// Records that represent a tuple (the `org.apache.avro.rust.tuple` attribute) are preferred if
+    /// `tuple` is set, other records are preferred if it is not.
+    ///
     /// Will use `names` to resolve references.
     pub(crate) fn find_record_with_n_fields<'s>(
         &'s self,
         n_fields: usize,
+        tuple: bool,
         names: &'s HashMap<Name, impl Borrow<Schema>>,
     ) -> Result<Option<(usize, &'s RecordSchema)>, Error> {
+        let mut other = None;
         for index in self.named_index.iter().copied() {
             let schema = &self.schemas[index];
             let schema = if let Schema::Ref { name } = schema {
@@ -211,12 +216,18 @@ impl UnionSchema {
             };
             match schema {
                 Schema::Record(record) if record.fields.len() == n_fields => {
-                    return Ok(Some((index, record)));
+                    let is_tuple = record.attributes.get("org.apache.avro.rust.tuple")
+                        == Some(&serde_json::Value::Bool(true));
+                    if is_tuple == tuple {
+                        return Ok(Some((index, record)));
+                    } else if other.is_none() {
+                        other = Some((index, record));
+                    }
                 }
                 _ => {}
             }
         }
-        Ok(None)
+        Ok(other)
     }
 
     /// Returns true if any of the variants of this `UnionSchema` is `Null`.
